@@ -23,7 +23,9 @@ THEOREMS = ["C01_fold_sound", "C01_fold_sound_root", "C01_fold_accepts", "C01_fo
             # needs (spec level); find_match's stack test covers the whole period / the source phrase of a subroutine;
             # the loop branch of apply_match keeps the song valid given that the stack analysis is right about the period
             "C01_fold_headroom", "C01_fold0_headroom", "C01_fold_budget_covers_period", "C01_sub_budget_covers_source",
-            "C01_src_stack_le_limit", "C01_fold_keeps_depth_partial", "C01_loop_pass_keeps_valid_partial"]
+            "C01_src_stack_le_limit", "C01_fold_keeps_depth_partial", "C01_loop_pass_keeps_valid_partial",
+            # repair of D28: analyze_stack marks the unused macro tracks after the loop over all tracks
+            "C01_analyzeStack_marks_after"]
 LEVEL = "proof"
 STREAM = "opt.final"
 CHUNK = 150
@@ -44,8 +46,12 @@ LEVEL_TEXT = ("see lean/Ctrmml/Properties/C01.lean: rewrite soundness over Spec/
               "skips included, passed stack_depth < max_loop_stack), C01_sub_budget_covers_source (every event of the phrase a subroutine is made from passed stack_depth < "
               "max_src_stack = the validator's 10 frames, C01_src_stack_le_limit), C01_fold_keeps_depth_partial / C01_loop_pass_keeps_valid_partial (the loop branch of apply_match / "
               "a whole loop-fold pass keeps every track valid - no validator run needed - under the extra hypothesis StackSoundAt: the stack analysis is right that the period has "
-              "one frame of headroom; the hypothesis cannot be dropped: Ex2.D28_witness, Ex2.stackSound_needed); NOT proved: termination without the bound on the number of events "
-              "(sub_id wrap, C01_optimize_terminates_statement), that analyze_stack's lists are sound (C01_fold_keeps_depth_full_statement; false as it stands: finding D28) and "
+              "one frame of headroom; a map that underestimates a base usage breaks the fold: Ex2.D28_witness, Ex2.stackSound_needed - the answer of analyze_stack before repo 6fc8560); "
+              "stack analysis (repair of D28, repo 6fc8560: the unused macro tracks are marked base_usage = 100 AFTER the loop over all tracks, so a later unused caller raises the base "
+              "usage of the chain below it): C01_analyzeStack_marks_after (a normal return is the map of the first loop with base_usage = 100 on exactly the collected unused roots), "
+              "Ex2.D28_regression (the repaired answer on the D28 song fails the stack test, nothing is folded); NOT proved: termination without the bound on the number of events "
+              "(sub_id wrap, C01_optimize_terminates_statement), that analyze_stack's lists are sound (C01_fold_keeps_depth_full_statement: StackSoundAt from analyzeStack song = .ok m; "
+              "no counterexample known since the repair of D28) and "
               "the depth side of subroutine extraction beyond the budget test; every generated valid song is run "
               "through the REAL optimiser and the spec expander (perf) compares, for every original track, the played events with durations, the total length and the loop-point time "
               "before and after, and requires normal termination (per-case timeout), a validating result and loop counts within 0..255 whenever the input's are, for aggressiveness "
@@ -55,14 +61,15 @@ LEVEL_NOTE = ("Trusted: Lean kernel; Spec/Tree + Spec/Expand (meaning of loops/b
               "< 32767, no explicit END event, LOOP_BREAKs without duration, tracks < 32767 events, subroutine ids stay below 32768; of C01_optimize_terminates_partial additionally: min_score >= 0 "
               "(for a negative threshold the pass loop does not end: a pass with score 0 changes nothing), int16_t call params (the model keeps params as unbounded Int: "
               "Ex2.analyzeStack_fuel_artefact), initialSubId + events < 32767.  That no intermediate song exceeds the depth limit is a theorem for loop-fold passes only under StackSoundAt "
-              "(soundness of analyze_stack's lists for the folded period: not proved, finding D28 is a counterexample with unused macro tracks) and is otherwise decided per case by "
-              "the oracle: every pass of every generated case must leave a validating song (family d18-budget walks the stack budget on both sides of its limits).  "
+              "(soundness of analyze_stack's lists for the folded period: not proved; finding D28 was a counterexample with unused macro tracks, repaired in repo 6fc8560) and is otherwise "
+              "decided per case by the oracle: every pass of every generated case must leave a validating song (family d18-budget walks the stack budget on both sides of its limits, "
+              "family d28-chain the chains of unused macro tracks in every id order up to the validator's 10 frames).  "
               "The list-based model is quartic in the length of a run of equal phrases: the 1000-repetition cases of the D2 family are sent as `optx` (same harness handler), the model does "
               "not answer them and only the spec oracle judges the real optimiser there (reported in a note).")
 RULE = ("motif-repetition songs (A^k, A^k A[0..j), motifs with nested loops, breaks (also two breaks in one loop) and calls, loop point at any depth-0 position, 1..4 channel tracks sharing "
         "motifs, tracks > 15, existing tracks >= 15000 (called or not)) + straddle family (a phrase and its repetition on the two sides of a break, loop bracket, loop point or call) "
         "x min_score in 0..10 + D18 family (phrase, material that nests j loops - directly, in a called subroutine, or with the folded track called inside ctx loops - , phrase again, "
-        "for every ctx + j the 10-frame limit allows; a phrase inside j loops and again outside / in another track / called) + D2 family (a phrase repeated 254..257, 300, 509..511, 1000 times back to back, with and without remainder, inside an outer loop, in two tracks) + all tracks over a 4-symbol alphabet up to length 6 (8 thorough); non-trivial = optimiser changed the song; distinct by request")
+        "for every ctx + j the 10-frame limit allows; a phrase inside j loops and again outside / in another track / called) + D28 family (chains of 1..10 unused macro tracks calling each other with descending / ascending / zigzag ids, the phrase at the bottom, in the middle, or around the call; also shared with a channel track) + D2 family (a phrase repeated 254..257, 300, 509..511, 1000 times back to back, with and without remainder, inside an outer loop, in two tracks) + all tracks over a 4-symbol alphabet up to length 6 (8 thorough); non-trivial = optimiser changed the song; distinct by request")
 EXPLANATION = "spec expander on the real optimiser's output vs on its input"
 ASSUMPTIONS = ["input songs validate (checked by the spec before judging)"]
 
